@@ -231,7 +231,7 @@ def run(ctx, run):
             need(run, f, i, "RF-DOM", "RF-DOM:vbi_decode_wss_625:%s" % nm, "%s announcement" % nm,
                  [("byte 0 equals the last received byte 0", lambda a: a.eq_field(F_LAST) and _idx(f, a) == {0}),
                   ("byte 1 equals the last received byte 1", lambda a: a.eq_field(F_LAST) and _idx(f, a) == {1}),
-                  ("repeat counter incremented and >= 3", lambda a: (a.L.has(F_REP) and a.L.incr == "++" and a.R is not None
+                  ("repeat counter incremented and >= 3", lambda a: (a.L.has(F_REP) and (a.L.incr == "++" or _stepped_before(f, a, F_REP, "+")) and a.R is not None
                                                                      and a.R.const is not None and
                                                                      ((a.rel == ">=" and a.R.const >= 3) or (a.rel == ">" and a.R.const >= 2)))),
                   ("odd parity of the aspect bits (a value derived from buf, & 1, != 0)",
@@ -516,6 +516,23 @@ def _activation_only(ctx, run):
                           "announced again, and the next station change no longer drops the cache" % ex.pretty(f, i)[:60],
                           ex.loc(f, i), witness={"dominating": [repr(a) for a in ats]})
     run.floor("reset actions in vbi_event_enable", n, 5)
+
+
+def _stepped_before(f, a, field, sign):
+    """The atom tests the value a dominating (or same-block, earlier) `field += 1` / `++field` (sign "+") left."""
+    if a.src is None:
+        return False
+    for bid, i in flow.all_events(f):
+        for lhs, var, op, rhs in flow.stores(f, i):
+            if lhs is None:
+                continue
+            le = f.exprs[ex.skip(f, lhs)]
+            if not (le["k"] == "mem" and "%s.%s" % (le.get("in"), le["member"]) == field):
+                continue
+            step = op == (sign + sign) or (op == sign + "=" and ex.const(f, rhs) == 1)
+            if step and (bid == a.src or flow.dominates(f, bid, a.src)):
+                return True
+    return False
 
 
 def _decremented_before(f, a, field):
